@@ -166,6 +166,10 @@ def rawHolds (b : Bytes) (tx : Tx) : Bool :=
   wfTx tx && (isPrefix (serialize true tx) b || isPrefix (serializeFlagged tx) b)
 
 def monitor (op obs : String) : String :=
+  -- two-call discipline of the harness: results held across a second call must not change,
+  -- and the serialized transaction itself must not be modified
+  if (obs.splitOn " ALIASED").length > 1 then "FAIL result-overwritten-by-later-call" else
+  if (obs.splitOn " MUTATED").length > 1 then "FAIL input-transaction-mutated" else
   match splitWs op, splitWs obs with
   | ["tx", v, l, i, o], [s, w, ds, dw, sv, si, so, sl, he] =>
     match parseTxFields v l i o, bytesOf s, bytesOf w, parseDec ds, parseDec dw,
